@@ -7,6 +7,7 @@ pub mod c09;
 pub mod c10;
 pub mod c11;
 pub mod c12;
+pub mod c13;
 pub mod c16;
 pub mod c21;
 pub mod dbg;
@@ -26,6 +27,8 @@ pub fn dispatch(id: &str, args: &Args) -> i32 {
         "C10" => drive_main(&c10::C10, args),
         "C11" => drive_main(&c11::C11, args),
         "C12" => drive_main(&c12::C12, args),
+        "C13" => drive_main(&c13::C13, args),
+        "C14" => drive_main(&c13::C14, args),
         "C16" => drive_main(&c16::C16, args),
         "C21" => drive_main(&c21::C21, args),
         "C27" => drive_main(&c27::C27, args),
